@@ -101,7 +101,7 @@ func (g *pgen) builtinName() string {
 }
 
 func (g *pgen) lambda(depth int, arity int) string {
-	names := []string{"x", "y", "z"}[:arity]
+	names := []string{"x", "y", "z", "w", "v"}[:arity]
 	old := g.vars
 	g.vars = append(append([]string{}, g.vars...), names...)
 	body := g.expr(depth - 1)
@@ -120,7 +120,8 @@ func (g *pgen) lambda(depth int, arity int) string {
 func (g *pgen) fnValue(depth int) string {
 	switch g.r.intn(6) {
 	case 0, 1, 2:
-		return g.lambda(depth, g.r.intn(4))
+		// arities up to 5: higher-order built-ins pass at most three arguments
+		return g.lambda(depth, g.r.intn(6))
 	case 3:
 		return "$" + g.builtinName()
 	case 4:
